@@ -1,6 +1,9 @@
 CFG = {'assumptions': ["64*len(words) < 2^31 and len(values)*w < 2^31 (Go's int32/int positions cannot overflow; larger inputs are outside every statement)",
                  'every word / value is in [0,2^64) (words_ok)',
-                 'Join/Getw: w in {1,2,4,8,16,32,64}; Slice: 0 <= from <= to <= 64*len(words)'],
+                 'Join/Getw: w in {1,2,4,8,16,32,64}; Slice: 0 <= from <= to <= 64*len(words)',
+                 'Getw/any: the specification speaks only while i*w fits int32 (beyond, Go wraps the product; there the '
+                 'run compares implementation and model only); Slice/Rank64|NextOne|PrevOne: 0 <= j < b-a; '
+                 'Join/Slice: 0 <= k <= m <= len(values); Fmt: values inside the range of their integer type'],
  'files': ['bitmap/join.go', 'bitmap/get.go', 'bitmap/slice.go', 'bitmap/mask.go', 'bitmap/fmt.go', 'bitmap/toarray.go'],
  'go': {'bitmap.Masks': 'bitmap.Mask[j], RMask[j], MaskUpto[j], RMaskUpto[j], Bit[j], RBit[j] (each read on its own; P = index out of range)',
         'bitmap.Getw/any': 'bitmap.Getw on an arbitrary bitmap and int32 index (P = panic)',
